@@ -1,14 +1,25 @@
 """Property id -> check object."""
 from __future__ import annotations
 
+_CACHE = {}
+
+
+def _all():
+    if not _CACHE:
+        from .props import CHECKS
+        _CACHE.update(CHECKS)
+        from .props_faults import C12, C13
+        _CACHE['C12'] = C12()
+        _CACHE['C13'] = C13()
+    return _CACHE
+
 
 def get_check(prop: str):
-    from .props import CHECKS
-    if prop in CHECKS:
-        return CHECKS[prop]
+    c = _all()
+    if prop in c:
+        return c[prop]
     raise KeyError(f'no check registered for {prop}')
 
 
 def all_ids():
-    from .props import CHECKS
-    return sorted(CHECKS)
+    return sorted(_all())
